@@ -28,4 +28,5 @@ include!("c06_parts/pool.rs");
 include!("c06_parts/attrib.rs");
 include!("c06_parts/gen.rs");
 include!("c06_parts/kernels.rs");
+include!("c06_parts/sites.rs");
 include!("c06_parts/run.rs");
